@@ -409,7 +409,7 @@ def write_if_changed(path, content):
 T5_GROUPS = (("bv", "FnsBv.v"), ("rsn2", "FnsRsn2.v"), ("rsw2", "FnsRsw2.v"), ("rss", "FnsRss.v"),
              ("qv2", "FnsQv2.v"), ("rsq", "FnsRsq.v"), ("qwt", "FnsQwt.v"), ("hqwt", "FnsHqwt.v"), ("wt", "FnsWt.v"), ("da", "FnsDa.v"), ("bvm", "FnsBvm.v"),
              ("utils", "FnsUtils.v"), ("qvb", "FnsQvb.v"), ("qwtnew", "FnsQwtnew.v"), ("wtnew", "FnsWtnew.v"), ("iters", "FnsIters.v"),
-             ("craft", "FnsCraft.v"), ("craft2", "FnsCraft2.v"))
+             ("craft", "FnsCraft.v"), ("craft2", "FnsCraft2.v"), ("titers", "FnsTiters.v"))
 
 
 def main():
